@@ -40,6 +40,7 @@ fn many_rows_cmd(r: &mut Rng, binary_stmt: Option<u32>) -> Cmd {
         ret_err: None,
         probe_cells: false,
         pull_params: None,
+        pull_skip: 0,
     };
     match binary_stmt {
         Some(id) => Cmd {
@@ -114,6 +115,7 @@ fn gen_counts_plan(r: &mut Rng) -> Plan {
                     ret_err: None,
                     probe_cells: false,
                     pull_params: None,
+                    pull_skip: 0,
                 }),
             });
         }
@@ -142,6 +144,7 @@ fn gen_counts_plan(r: &mut Rng) -> Plan {
                     ret_err: None,
                     probe_cells: false,
                     pull_params: None,
+                    pull_skip: 0,
                 }),
             });
         }
@@ -338,6 +341,7 @@ pub fn gen_sink(r: &mut Rng, tier: Tier, job: u64) -> Plan {
             v13: r.chance(2, 3),
             seed: r.next(),
             chain: *r.pick(&[0u8, 0, 1, 2, 3]),
+            big_hello: r.chance(1, 5),
         });
         p.handshake.seq = 1;
         p.writes.eintr_at.clear();
